@@ -63,15 +63,15 @@ FLOWS = [
     # ---- group dec (C04, C01): Proofs/Flow_e2e_dec.v
     Flow("k_flow_cek_decrypt", "_crypto.py", "cek_decrypt", props=("C04", "C01")),
     Flow("k_flow_content_decrypt", "_crypto.py", "content_decrypt", props=("C04", "C01")),
-    Flow("k_flow_decrypt_blob", "_client.py", "_decrypt_blob", props=("C04", "C01")),
+    Flow("k_flow_decrypt_blob", "_client.py", "_decrypt_blob", props=("C04", "C01", "C05")),
     # ---- group enc (C01, C19): Proofs/Flow_e2e_enc.v
     Flow("k_flow_cek_encrypt", "_crypto.py", "cek_encrypt", props=("C01", "C19")),
     Flow("k_flow_content_encrypt", "_crypto.py", "content_encrypt", props=("C01", "C19")),
     Flow("k_flow_cek_generate", "_crypto.py", "cek_generate", props=("C01", "C19")),
     Flow("k_flow_encrypt_blob", "_client.py", "_encrypt_blob", props=("C01", "C19")),
     # ---- group kdf (C01): Proofs/Flow_e2e_kdf.v -- the two KDF wrappers are the `kdf` / `concat_kdf` fields of the Crypto record
-    Flow("k_flow_kdf", "_crypto.py", "kdf", props=("C01",)),
-    Flow("k_flow_kdf_concat", "_crypto.py", "kdf_concat", props=("C01",)),
+    Flow("k_flow_kdf", "_crypto.py", "kdf", props=("C01", "C05")),
+    Flow("k_flow_kdf_concat", "_crypto.py", "kdf_concat", props=("C01", "C05")),
     # ---- group gke (C09, C01): Proofs/Flow_e2e_gke.v
     Flow("k_flow_get_protection_gke_from_cache", "_client.py", "_get_protection_gke_from_cache", props=("C09", "C01")),
 ]
